@@ -38,7 +38,7 @@ func init() {
 			"(RunLuaScript, l.Get(-1), type test, luamanager.Encode, json.Unmarshal into the caller's type) in a child process, one script at a time, GOMAXPROCS=1, getrusage around the call. " +
 			"distinct = distinct (category, script name or generated-feature set, outcome) signature.",
 		Assumptions: []string{
-			"bounded time is judged on CPU time of the call (getrusage, single-P child so CPU <= wall): violation only above 5 s (claimed deadline 1 s); a script still running at 5.5 s CPU is killed and counted as over the bound; the wall watchdog (60 s without CPU progress) alone never produces a violation, only an inconclusive case",
+			"bounded time is judged on CPU time of the call (getrusage, single-P child so CPU <= wall): violation only above 10 s (claimed deadline 1 s; calls between 2 s and 10 s are recorded as observations); a script still running at 10.5 s CPU is killed and counted as over the bound; the wall watchdog (60 s without CPU progress) alone never produces a violation, only an inconclusive case",
 			"memory bombs and nesting bombs are outside the claim: corpus data stay below ~50 MB / a few thousand nesting levels; for generated programs (data size not known by construction) a call during which the process's peak RSS exceeds 1 GiB is not judged on time; a child that dies with 'out of memory' or exceeds 6 GiB RSS is excluded, not judged",
 			"an unrecoverable death of the process (Go fatal error) caused by a script of modest size is a violation ('never panics the process')",
 			"no escape: print/_printregs (stdout of the controller) and load/loadstring (compile strings only) are allowed; a reachable function outside the reviewed allow-list of base/math/string/table/json functions is reported because the claimed mechanism is a closed set of opened libraries; loadfile/dofile/require are judged by probes against sentinel files and by the syscall log",
@@ -153,6 +153,10 @@ func judgeCommon(res *core.CaseResult, it item, r itemResult, timeFP string, mod
 		res.AddSet("memory_bombs", it.Cat+"/"+it.Name)
 		return
 	}
+	if r.CPUms > slowMs && r.CPUms <= cpuBoundMs {
+		res.Count("calls_slower_than_2s_within_bound", 1)
+		res.AddSet("slow_calls_within_bound", it.Cat+"/"+it.Name)
+	}
 	if r.CPUms > cpuBoundMs {
 		res.Count("cpu_over_bound", 1)
 		fp := timeFP
@@ -163,7 +167,7 @@ func judgeCommon(res *core.CaseResult, it item, r itemResult, timeFP string, mod
 		if strings.HasPrefix(r.Kind, "killed") {
 			how = fmt.Sprintf("had not returned after %d ms CPU (killed)", r.CPUms)
 		}
-		res.Violate(fp, fmt.Sprintf("the call %s; the deadline in RunLuaScript is 1 s, bound used 5 s", how), detail())
+		res.Violate(fp, fmt.Sprintf("the call %s; the deadline in RunLuaScript is 1 s, bound used 10 s", how), detail())
 	}
 }
 
